@@ -1266,7 +1266,7 @@ def runs_every_iteration(body, call_bb):
     return False, "loop shape not recognised"
 
 
-def kwarg_locals(body, name, const_of=None):
+def kwarg_locals(body, name, const_of=None, named_only=True):
     """user-named locals that hold the value of the keyword argument `name`: forward flow from `Kwargs::get/must_get(.., "name")` through
     `?`, unwrap_or*, copies and the Continue payload. The keyword name is part of the documented interface, the local's name is not."""
     def cstr(op, depth=0):
@@ -1298,10 +1298,16 @@ def kwarg_locals(body, name, const_of=None):
                     S.add(st["dest"]["l"])
                     changed = True
                 continue
-            if st.get("k") != "assign" or st["rv"]["k"] != "use":
+            if st.get("k") != "assign":
                 continue
-            op = st["rv"]["op"]
+            rv = st["rv"]
+            if rv["k"] == "ref" and rv["pl"]["l"] in S and st["pl"]["l"] not in S:
+                S.add(st["pl"]["l"])       # reborrow of the value
+                changed = True
+            if rv["k"] != "use":
+                continue
+            op = rv["op"]
             if op["k"] in ("copy", "move") and op["pl"]["l"] in S and st["pl"]["l"] not in S:
                 S.add(st["pl"]["l"])
                 changed = True
-    return {l for l in S if body.local_name(l)}
+    return {l for l in S if body.local_name(l)} if named_only else S
